@@ -213,6 +213,8 @@ func (b *builder) build1(s *Spec) px.Value {
 		return px.New(b.ctx, b.env.objTypes[s.S], args...)
 	case "ptype":
 		return b.buildPType(s)
+	case "gs":
+		return b.buildGoStruct(s)
 	}
 	panic("bad spec kind " + s.K)
 }
@@ -290,7 +292,7 @@ func (b *builder) buildPType(s *Spec) px.Value {
 // needsLoader: an Init type asks the loader for the constructor of its type as soon as it is used
 // (types/inittype.go:210-219), so it exists over registered types only
 func (s *Spec) needsLoader() bool {
-	if s.K == "ptype" && s.S == "Init" || s.mentionsUserType() {
+	if s.K == "ptype" && s.S == "Init" || s.mentionsUserType() || s.K == "gs" {
 		return true
 	}
 	for _, e := range s.E {
@@ -324,7 +326,7 @@ func (s *Spec) mentionsUserType() bool {
 // hasUserTypes tells whether the spec needs the type catalogue (then both scenarios are run)
 func (s *Spec) hasUserTypes() bool {
 	switch s.K {
-	case "objtype", "alias", "obj":
+	case "objtype", "alias", "obj", "gs":
 		return true
 	}
 	if s.mentionsUserType() {
